@@ -5,7 +5,7 @@ import json, os, re, shutil, sys, glob
 props = {json.loads(l)["id"]: json.loads(l) for l in open("/verif/properties.jsonl")}
 for log in sys.argv[1:]:
     txt = open(log).read()
-    for m in re.finditer(r"RESULT (C\d+) (.*)\nCONFIRMED (C\d+)", txt):
+    for m in re.finditer(r"RESULT (C\d+[a-z]?) (.*)\nCONFIRMED (C\d+[a-z]?)", txt):
         pid, res = m.group(1), m.group(2)
         src, dst = f"/verif/seeded_candidates/{pid}", f"/verif/seeded/{pid}"
         os.makedirs(dst, exist_ok=True)
@@ -15,8 +15,8 @@ for log in sys.argv[1:]:
         needs = [l.strip("-* ").strip() for l in notes.splitlines() if re.search(r"manifest|needs|only when|requires", l, re.I)][:6]
         demo = [os.path.basename(f) for f in glob.glob(dst + "/zz_seeded_*_test.go")]
         meta = {
-            "property": pid,
-            "title": props[pid]["title"],
+            "property": pid[:3],
+            "title": props[pid[:3]]["title"],
             "origin": "written by an independent sub-agent that saw only the property text and a scratch worktree of /repo (nothing from /verif)",
             "patch": "patch.diff",
             "demonstration": demo,
